@@ -9,9 +9,12 @@ import (
 	"github.com/vulcand/oxy/v2/zverif/c09"
 	"github.com/vulcand/oxy/v2/zverif/c14"
 	"github.com/vulcand/oxy/v2/zverif/c18"
+	"github.com/vulcand/oxy/v2/zverif/cb"
 )
 
 func init() {
+	parts["cbs"] = cb.RunSched
+	finders["cbs"] = cb.FindSched
 	parts["c09"] = c09.Run
 	finders["c09"] = c09.Find
 	parts["c18"] = c18.Run
